@@ -159,6 +159,20 @@ def gen_edges_spec(rng, k):
     return spec
 
 
+def gen_near_spec(rng, k):
+    seps = ["1e-17", "1e-20", "2^-80", "ulp", "subnormal"]
+    modes = [("tree", "none"), ("none", "tree"), ("none", "linetree"), ("tree", "tree")]
+    g, c = modes[(k // len(seps)) % len(modes)]
+    spec = {"kind": "near", "rs": [1.0, 4.0, 0.5, 2.0 ** 10][(k // 3) % 4], "n": list([(1, 1, 1), (2, 1, 1), (2, 2, 2)][k % 3]), "boundary": ["periodic", "open", "shear"][(k // 2) % 3],
+            "gravity": g, "collision": c, "seed": rng.randrange(1 << 30), "dt": 2.0 ** -7, "sep": seps[k % len(seps)],
+            "mask": [[1, 0, 0], [1, 1, 0], [1, 1, 1]][(k // 5) % 3]}
+    if g != "none":
+        spec["softening"] = 0.05 * spec["rs"]
+    if spec["boundary"] == "shear":
+        spec["omega"] = 1.0
+    return spec
+
+
 def corner_specs():
     out = []
     # (i) particle exactly on the upper box border, more than one root box: FIXED in /repo da62396 for exact root-cell
@@ -458,7 +472,7 @@ def run(ctx):
     nrest = ctx.scale(84, 560)
     specs = [gen_tree_spec(rng, k) for k in range(ntree)] + [gen_boundary_spec(rng, k) for k in range(nbound)] + \
             [gen_restore_spec(rng, k) for k in range(nrest)] + [gen_ops_spec(rng, k) for k in range(ctx.scale(72, 480))] + \
-            [gen_edges_spec(rng, k) for k in range(ctx.scale(40, 320))] + corner_specs()
+            [gen_edges_spec(rng, k) for k in range(ctx.scale(40, 320))] + [gen_near_spec(rng, k) for k in range(ctx.scale(40, 240))] + corner_specs()
     if ctx.thorough:
         for s in specs:
             if s["kind"] == "tree":
